@@ -13,7 +13,7 @@ import random
 
 import numpy as np
 
-from .. import core, findlib as fl, gen_find_c02 as g, gen_find_c03 as g3
+from .. import core, findlib as fl, gen_find_c02 as g, gen_find_c03 as g3, gen_find_c03_slab as gs
 
 ATOL = 0.05
 TWO_IMAGES_TAG = "supercell-two-images-one-group"
@@ -36,7 +36,14 @@ RULE = ("base structures as in C02 (validated planted copies, per-atom perturbat
         "NEARLY LINEAR patterns (3-5 atoms along a line, inner atoms at most f*atol off it, f in {0, <0.05, 0.1-0.5, 0.52-0.97 "
         "(weight 4/9), 1.03-1.6, 1.6-4}; 1-3 exact / atol/40 / atol/16 copies in distinct poses, validated by the enumerator): "
         "pattern moved arbitrarily and ROLLED ABOUT ITS OWN LONG AXIS (fixed and random angles), crystal turned, shift / "
-        "permutation, valid hint triples with lever ratios ro<=3, ra<=2.5 (orientation atom a fraction of atol off the axis). Non-trivial = the base search reports at least "
+        "permutation, valid hint triples with lever ratios ro<=3, ra<=2.5 (orientation atom a fraction of atol off the axis). "
+        "SLAB CELLS (one or two perpendicular widths 0.3-0.95 of D = diameter + 2 atol, the others 1.15-2.6 D; orthorhombic / "
+        "tilted / turned as a whole; random elongated patterns of 2-4 atoms, diameter 2.5-8 A; 1-3 exact or atol/16 copies in "
+        "random poses whose fractional extent stays below 0.9 cell along every cell direction, so that each occurrence lies in "
+        "the home cell and its adjacent images; bystander atoms; validated by the enumerator over ceil(D/width)+1 images): "
+        "supercells of 2-3 cells along a thin direction (also combined with another direction) wherever the independent "
+        "enumeration of unit cell and supercell confirms that the count relation is mathematically true; shift, permutation, "
+        "pattern motion, crystal turned, unwrapped twin, reseed. Non-trivial = the base search reports at least "
         "one match and the transformation is not the identity.")
 
 HINT_PATTERNS = [p for p in fl.PATTERNS if len(fl.PATTERNS[p][0]) <= 4]
@@ -511,6 +518,8 @@ def run(ctx, oracle_only=False, scale=1):
     # Relations: pattern moved rigidly (arbitrary motion; rolls about its OWN long axis), whole crystal turned, valid
     # well-conditioned hint triples (orientation atom off the axis, ro <= 3, ra <= 2.5), shift, permutation.
     near_linear(ctx, rng, ctx.n(36, 300) * scale, pairs, n_tie if not oracle_only else 0)
+    # ---- slab cells: thinner than the pattern is long in one or two directions, the occurrences lying along the others
+    slab(ctx, rng, ctx.n(40, 300) * scale)
     if ctx.tier == "quick" and scale == 1 and HINT_PATTERNS:
         ctx.notes.append("hint triples enumerated completely for one structure per pattern with <= 4 atoms")
     # ---- the repository's MOF files (oracle only)
@@ -574,6 +583,50 @@ def near_linear(ctx, rng, n_cases, pairs, n_tie):
                 if bad:
                     ctx.fail(bad, inp, required="same key set for every valid hint triple",
                              tags=hint_failure_tags(base, h, bk, res) + tg)
+
+
+def slab(ctx, rng, n_cases):
+    """cells with a perpendicular width BELOW the pattern's diameter (outside the blanket width guard of the other
+    streams) in which every occurrence still spans less than one cell along every cell direction.  The supercell
+    relation is demanded where an independent enumeration of unit cell and (independently built) supercell says it is
+    mathematically true; the other relations unconditionally."""
+    for i in range(n_cases):
+        atol = rng.choice(ATOLS)
+        case = gs.slab_case(rng, atol=atol)
+        if case is None:
+            ctx.count("generator:rejected")
+            continue
+        base = base_of(case, atol)
+        ctx.count("stream:slab")
+        ctx.count("slab:" + case["info"]["cell"])
+        ctx.count("slab:thin-directions-%d" % len(case["info"]["thin"]))
+        ctx.count("slab:width/D<%.1f" % (math.floor(case["info"]["width_over_D"] * 5) / 5 + 0.2))
+        bres = real_search(base, seed=1)
+        bk = keys(bres)
+        tg = ["slab", "cell:" + case["info"]["cell"]]
+        if bk is None:
+            ctx.fail("the search raised %s" % bres.get("err"), inp_of(base, "seed", 1), tags=["base"] + tg)
+            continue
+        big = ctx.tier != "quick" and len(base["elems"]) <= 8
+        for _ in range(2):
+            dims = gs.slab_dims(rng, case, big=big)
+            true, n_unit, n_super = gs.supercell_truth(base, dims, case["info"]["span"])
+            if true is None:
+                ctx.ambiguous += 1
+                ctx.count("slab:supercell-ambiguous")
+            elif not true:
+                ctx.count("slab:supercell-relation-mathematically-false(two images of one atom fit)")
+            else:
+                check_rel(ctx, base, "replicate", list(dims), bk, tags=tg)
+        v, order, pm = rand_params(rng, base)
+        check_rel(ctx, base, "shift", v, bk, tags=tg)
+        check_rel(ctx, base, "perm", order, bk, tags=tg)
+        check_rel(ctx, base, "pattern", pm, bk, tags=tg)
+        check_rel(ctx, base, "rotate-crystal", list(crystal_turn(rng)), bk, tags=tg)
+        if i % 2 == 0:
+            check_rel(ctx, base, "unwrap", g.lattice_shifts(rng, len(base["elems"])), bk, tags=tg)
+        else:
+            check_rel(ctx, base, "seed", rng.randrange(3, 10 ** 6), bk, tags=tg)
 
 
 MOFS = [("docs/examples/uio66.cif", "docs/examples/uio66-linker.cml", 0.05, 24, {}),
